@@ -26,6 +26,7 @@ def _py(slot, k, s):
         "rangeArg": ([f"def g_{k}(f):", f"    for i in range({s}):", "        f(i)"], 1),
         "enumerateArg": ([f"def e_{k}(f, xs):", f"    for i, e in enumerate(xs, {s}):", "        f(i, e)"], 1),
         "strRepeat": ([f"def s_{k}():", f"    line = \"-\" * {s}", "    return line"], 1),
+        "strKeyMul": ([f"def sk_{k}(cfg):", f"    y = cfg[\"timeout\"] * {s}", "    return y"], 1),
         "upperConst": ([f"MAX_{k} = {s}"], 0),
         "annUpperConst": ([f"LIMIT_{k}: float = {s}"], 0),
         "nestedFunc": ([f"def n_{k}(x):", "    def inner():", f"        return x + {s}", "    return inner"], 2),
